@@ -90,6 +90,8 @@ void vrt_set_perturb(int level) { atomic_store(&g_perturb, level); }
 void vrt_set_projector(vrt_projector_t fn) { g_proj = fn; }
 void vrt_set_probe_filter(int on) { g_probe_filter = on; }
 void vrt_set_steer(vrt_steer_t fn) { g_steer = fn; }
+static vrt_steer_t g_post_steer;
+void vrt_set_post_steer(vrt_steer_t fn) { g_post_steer = fn; }
 size_t vrt_count(void) { return g_n; }
 const vrt_rec_t *vrt_get(size_t i) { return &g_rec[i]; }
 int vrt_overflowed(void) { return g_overflow; }
@@ -236,7 +238,10 @@ static void rt_post(struct dispatch_verif_site_s *s, const volatile void *addr,
 	}
 out:
 	t_held = 0;
+	int hobj = t_hobj;
 	pthread_mutex_unlock(&g_lock);
+	/* steering after the access became visible (e.g. hold a thread right after its unlock) */
+	if (g_post_steer) { t_in_rt = 1; g_post_steer(s, addr, hobj); t_in_rt = 0; }
 }
 
 static void rt_probe(const char *kind, const volatile void *obj, long a, long b)
